@@ -2,7 +2,7 @@
 From Coq Require Import Reals QArith PrimFloat Lra Lia.
 From Coquelicot Require Import Coquelicot.
 From EsVerif.Common Require Import Base.
-From EsVerif.C17 Require Import Model Dyadic Spec Proofs Integral CheckProofs FillProofs SmallRules.
+From EsVerif.C17 Require Import Model Dyadic Spec Proofs Integral CheckProofs FillProofs SmallRules DataAtProofs Legendre SumProofs CheckComplete.
 Import RM.
 
 Local Open Scope R_scope.
@@ -103,6 +103,18 @@ Theorem C17_interplin_is_linear_interpolation : forall xv yv u j,
   interplin yv xv u = chord xv yv j u.
 Proof. exact interplin_is_chord. Qed.
 
+(* ... for EVERY abscissa inside the table (no bracket given): a bracketing pair exists and interplin is its
+   chord -- the clipping / extrapolation branches of interplin are never the ones that matter; and the
+   mapped abscissae of a rule with nodes in (-1,1) do lie strictly inside (x1,x2). *)
+Theorem C17_interplin_is_chord_everywhere_inside : forall xv yv u,
+  increasing xv -> (2 <= length xv)%nat -> nth 0 xv 0 <= u <= nth (length xv - 1) xv 0 ->
+  exists j, (S j < length xv)%nat /\ nth j xv 0 <= u <= nth (S j) xv 0 /\ interplin yv xv u = chord xv yv j u.
+Proof. exact interplin_is_chord_everywhere_inside. Qed.
+
+Theorem C17_mapped_abscissa_inside : forall x1 x2 z, x1 < x2 -> -1 < z < 1 ->
+  x1 < z * ((x2 - x1) / 2) + (x2 + x1) / 2 < x2.
+Proof. exact mapped_abscissa_inside. Qed.
+
 (* The two-dimensional integrator is the tensor-product sum. *)
 Theorem C17_tensor_product_sum : forall x wx y wy x1 x2 y1 y2 f,
   integrate_func2 x wx y wy x1 x2 y1 y2 f =
@@ -116,6 +128,31 @@ Theorem C17_tensor_on_grid_values : forall x wx y wy x1 x2 y1 y2 f,
   integrate_vals2 wx wy x1 x2 y1 y2
     (flat_map (fun yi => map (fun xj => f (xj * ((x2 - x1) / 2) + (x2 + x1) / 2) (yi * ((y2 - y1) / 2) + (y2 + y1) / 2)) x) y).
 Proof. exact integrate_func2_vals. Qed.
+
+(* gauleg raises ValueError exactly for npts <= 0, whatever the other arguments (model of the wrapper's check;
+   the condition itself is re-translated from util.py on every run: gen_reject_npts). *)
+Theorem C17_gauleg_rejection : forall orig x1 x2 npts coss,
+  F.gauleg_gen orig x1 x2 npts coss = Err EValue <-> (npts <= 0)%Z.
+Proof. exact gauleg_rejection. Qed.
+
+Example C17_gauleg_rejection_nonvacuous : F.gauleg 0 1 0 [] = Err EValue /\ F.gauleg 0 1 (-3) [] = Err EValue.
+Proof. split; reflexivity. Qed.
+
+(* numpy's pairwise summation as modelled (blocks of 8 accumulators, recursive halving at multiples of 8):
+   with the addition of the reals it returns exactly the sum, for every list (no element dropped or
+   repeated at any block boundary), and the fuel suffices up to 112*2^fuel+16 elements; the float model
+   F.pairwise / F.np_sum is the SAME function instantiated with PrimFloat.add. *)
+Theorem C17_pairwise_sum_is_the_sum : forall fuel l, (length l <= 112 * 2 ^ fuel + 16)%nat ->
+  pairwise_g Rplus 0%R fuel l = Some (Rsum l).
+Proof. exact pairwise_R_total_sum. Qed.
+
+Theorem C17_integrator_with_numpy_summation_tree : forall zs ws x1 x2 f s,
+  pairwise_g Rplus 0%R 64 (map2 (fun z w => f (z * ((x2 - x1) / 2) + (x2 + x1) / 2) * w) zs ws) = Some s ->
+  integrate_func zs ws x1 x2 f = (x2 - x1) / 2 * s.
+Proof. exact integrate_func_with_numpy_tree. Qed.
+
+Example C17_float_pairwise_is_the_generic_tree : F.pairwise = pairwise_g PrimFloat.add 0%float.
+Proof. reflexivity. Qed.
 
 (* QGauss2 array shapes under numpy broadcasting.  Repaired _setup: for ALL nx, ny >= 1 the weight
    grid and the summed integrand have the mesh's shape (ny, nx).  Unchanged _setup (weight grids
@@ -190,7 +227,50 @@ Theorem C17_dowhile_equals_while_when_entered : forall fuel n nf z z1 pp,
   F.newton_while fuel n nf z z1 pp = F.newton_do fuel n nf z.
 Proof. intros fuel n nf z z1 pp H. unfold F.newton_while. rewrite H. reflexivity. Qed.
 
-(* The rules for n = 1..12, certified inside Coq once and for all (not per run): with libm's start
+(* What the Newton pass computes, over the reals (RM.legendre_R / pp_R / newton_step_R mirror the C
+   statements of lines 59-71 with exact arithmetic): the inner loop is Bonnet's recursion for the
+   Legendre polynomials, pp is P_n'(z) -- the derivative in the sense of analysis (Coquelicot) --, so one
+   pass is Newton's method on P_n, whose fixed points are exactly the roots of P_n; the weight
+   formula is the classical 2 / ((1 - z^2) P_n'(z)^2) times the half width. *)
+Theorem C17_newton_pass_is_legendre_recursion : forall n z, legendre_R n 1 z 1 0 = (P n z, Pm n z).
+Proof. exact newton_pass_is_legendre. Qed.
+
+Theorem C17_legendre_derivative : forall n x, is_derive (P n) x (D n x).
+Proof. exact D_is_derivative. Qed.
+
+Theorem C17_pp_is_legendre_derivative : forall n z, (1 <= n)%nat -> z * z <> 1 ->
+  pp_R (INR n) z (P n z) (Pm n z) = D n z.
+Proof. exact pp_is_derivative. Qed.
+
+Theorem C17_newton_pass_is_newtons_method : forall n z, (1 <= n)%nat -> z * z <> 1 ->
+  newton_step_R n z = (z - P n z / Derive (P n) z, Derive (P n) z) /\ is_derive (P n) z (Derive (P n) z).
+Proof. exact newton_step_R_is_newton. Qed.
+
+Theorem C17_newton_fixed_point_iff_root : forall n z, (1 <= n)%nat -> z * z <> 1 -> D n z <> 0 ->
+  (fst (newton_step_R n z) = z <-> P n z = 0).
+Proof. exact newton_fixed_point_iff_root. Qed.
+
+Theorem C17_weight_formula_is_classical : forall xl z n, z * z <> 1 -> D n z <> 0 ->
+  weight_R xl z (D n z) = xl * (2 / ((1 - z * z) * (D n z) ^ 2)).
+Proof. exact weight_R_classical. Qed.
+
+Example C17_legendre_low_orders : forall x,
+  P 2 x = (3 * x * x - 1) / 2 /\ D 2 x = 3 * x /\ P 3 x = (5 * x * x * x - 3 * x) / 2 /\ D 3 x = (15 * x * x - 3) / 2.
+Proof. exact legendre_low_orders. Qed.
+
+Example C17_newton_fixed_point_nonvacuous :      (* n = 2: the root 1/sqrt 3 of P_2 is a fixed point *)
+  fst (newton_step_R 2 (R_sqrt.sqrt (/ 3))) = R_sqrt.sqrt (/ 3).
+Proof.
+  assert (S2 : R_sqrt.sqrt (/ 3) * R_sqrt.sqrt (/ 3) = / 3) by (apply sqrt_sqrt; lra).
+  assert (Hpos : 0 < R_sqrt.sqrt (/ 3)) by (apply sqrt_lt_R0; lra).
+  apply C17_newton_fixed_point_iff_root; [lia | lra | |].
+  - destruct (legendre_low_orders (R_sqrt.sqrt (/ 3))) as [_ [E _]]. rewrite E. lra.
+  - destruct (legendre_low_orders (R_sqrt.sqrt (/ 3))) as [E _]. rewrite E.
+    replace (3 * R_sqrt.sqrt (/ 3) * R_sqrt.sqrt (/ 3)) with (3 * (R_sqrt.sqrt (/ 3) * R_sqrt.sqrt (/ 3))) by ring.
+    rewrite S2. field.
+Qed.
+
+(* The rules for n = 1..10, certified inside Coq once and for all (not per run): with libm's start
    values (SmallRules.cos_table, re-measured and compared on every run) the bit-exact model of
    gauleg(-1,1,n) returns n abscissae and weights whose 2n moments are within 5e-10; hence on EVERY
    interval and for EVERY polynomial of degree <= 2n-1 the mapped rule is exact up to that error. *)
@@ -204,7 +284,7 @@ Theorem C17_small_rules_exact : forall n coss, In (n, coss) cos_table ->
       <= Rabs (b - a) / 2 * (eps_m * norm1 (pcomp p ((a + b) / 2) ((b - a) / 2))).
 Proof. exact small_rules_exact. Qed.
 
-Example C17_small_rules_table_covers : map fst cos_table = [1;2;3;4;5;6;7;8;9;10;11;12]%Z.
+Example C17_small_rules_table_covers : map fst cos_table = [1;2;3;4;5;6;7;8;9;10]%Z.
 Proof. reflexivity. Qed.
 
 (* Checker soundness: what the correspondence run decides by vm_compute on the exact values of
@@ -231,6 +311,49 @@ Proof.
   split; [exact poly_check_sound|]. split; [exact func_check_sound|].
   split; [exact data_check_sound_dy|]. split; [exact func2_check_sound | exact history_check_sound].
 Qed.
+
+(* The data integrator judged at the abscissae it used (tables far from the origin: see Spec):
+   soundness of the checker the correspondence run evaluates, and interplin over Q (as the checkers
+   evaluate it, any ascending table) = the chord through the bracketing tabulated points. *)
+Theorem C17_data_checker_at_abscissae_sound : forall zs ws xv yv xi res,
+  data_check_at (map d2Q zs) (map d2Q ws) (map d2Q xv) (map d2Q yv) (map d2Q xi) (d2Q res) = true ->
+  data_ok_at (map dR zs) (map dR ws) (map dR xv) (map dR yv) (map dR xi) (dR res).
+Proof. exact data_check_at_sound_dy. Qed.
+
+Theorem C17_interplin_Q_is_chord : forall xv yv u j,
+  increasing_Q xv = true -> (2 <= length xv)%nat -> (S j < length xv)%nat ->
+  Q2R (nth j xv 0%Q) <= Q2R u <= Q2R (nth (S j) xv 0%Q) ->
+  Q2R (interplin_Q yv xv u) = chord (map Q2R xv) (map Q2R yv) j (Q2R u).
+Proof. exact interplin_Q_is_chord. Qed.
+
+Example C17_interplin_Q_offset_table :     (* a Julian-day table: x = 2400000 + k/100000 *)
+  let xv := [240000000000 # 100000; 240000000001 # 100000; 240000000003 # 100000]%Q in
+  increasing_Q xv = true /\ interplin_Q [1; 3; 7]%Q xv (240000000002 # 100000) == 5.
+Proof. split; reflexivity. Qed.
+
+(* The rule checker is COMPLETE as well as sound: it accepts exactly the outputs that satisfy rule_ok (order,
+   interiority, sign, symmetry, weight sum, agreement with the reference rule, all to 1e-9 |b-a|): a rejection
+   by the correspondence run is always a violation of these bounds, never an artefact of the checker. *)
+Theorem C17_rule_checker_decides_rule_ok : forall a b xs ws refz refw,
+  rule_check a b xs ws refz refw = true <->
+  rule_ok (dR a) (dR b) (map dR xs) (map dR ws) (map dR refz) (map dR refw).
+Proof. exact rule_check_iff. Qed.
+
+(* the two readings of the data integrator agree when the abscissae are the exactly mapped ones *)
+Theorem C17_data_ok_at_exact_abscissae : forall zs ws xv yv res,
+  data_ok_at zs ws xv yv
+    (map (fun z => z * ((Rmax_list xv - Rmin_list xv) / 2) + (Rmax_list xv + Rmin_list xv) / 2) zs) res ->
+  data_ok zs ws xv yv res.
+Proof. exact data_ok_at_exact. Qed.
+
+(* frame conditions: a zero-width range integrates to 0; setup with no count or the current count leaves
+   the object (count and rule) untouched *)
+Theorem C17_zero_width_integrates_to_zero : forall zs ws a f, integrate_func zs ws a a f = 0.
+Proof. exact integrate_func_zero_width. Qed.
+
+Theorem C17_setup_frame : forall (T : Type) (G : Z -> result T) (st : @qstate T),
+  setup G st None = (st, None) /\ forall n, st_npts st = Some n -> setup G st (Some n) = (st, None).
+Proof. intros T. exact (@setup_frame T). Qed.
 
 (* the dyadic value of a float literal is the float's value: values enter the checkers through
    [f2d]; for a finite float, dR (f2d f) = (-1)^s m 2^e of its IEEE decomposition *)
